@@ -19,9 +19,9 @@ CHECKS = {
  "C05": ("model_checking", "bounded-exhaustive enumeration of a value universe; print -> parse -> structural equality -> print; graph write/read over all small subsets",
          "Every node / predicate / literal / object / triple of a finite universe (ids of length <= 3-4 over a delimiter alphabet, anchors in 3 zones x 4 precisions, int64 and float64 boundary sets, texts, blobs) is printed, parsed back, compared structurally and printed again; every subset of size <= 4 (5) of a 14 (18) triple universe is written with WriteGraph and read into an empty graph.",
          "Domain taken from docs/temporal_graph_modeling.md; NaN excluded; longer ids and other zones not covered.", "3/C05"),
- "C06": ("model_checking", "all ordered pairs of a near-collision value universe; definedness on boundary sets; table recomputed concurrently and in a second process",
-         "UUID(x)=UUID(y) iff same kind and structurally equal, and Triple.Equal likewise, for all ordered pairs within each value family of a 1.6k (8.9k) value universe built from near-collisions; UUID defined on all int64/float64 boundary values; table recomputed by 8 goroutines and by a re-executed process.",
-         "Goroutine part free-running (not exhaustive over schedules); second process = same binary on this machine.", "3/C06"),
+ "C06": ("model_checking", "all ordered pairs of a near-collision value universe; definedness on boundary sets; every schedule (deviation-bounded) of two or three threads computing UUIDs / Equal of different values on the instrumented value packages with sync.Pool modelled; table recomputed concurrently and in a second process",
+         "UUID(x)=UUID(y) iff same kind and structurally equal, and Triple.Equal likewise, for all ordered pairs within each value family of a 1.6k (8.9k) value universe built from near-collisions; UUID defined on all int64/float64 boundary values; 10 concurrent scenarios x every schedule with <= 3 (6) deviations, each result equal to the sequential one; table also recomputed by 8 free-running goroutines and by a re-executed process.",
+         "Schedule part: triple/node is not instrumented (its pool is the real one); second process = same binary on this machine.", "3/C06"),
  "C07": ("model_checking", "stateless model checking of the real (AST-instrumented) storage/memory, planner and table code under a cooperative scheduler: unbounded exploration with sleep sets per scenario plus deviation-bounded exploration without reduction; histories checked with porcupine against the set model",
          "9 scenarios x result-channel capacity 0/1 (2-7 threads; S6 = BQL INSERT || 2-clause SELECT). S1, S2, S3a, S4, S5a, S5b, S7: every Mazurkiewicz trace of the synchronisation operations and every schedule with <= 2 (quick) / <= 3 (thorough) deviations unreduced; S3 (shared LookupOptions) <= 3/4 deviations; S6 <= 1/2. On every execution: no panic / deadlock / leak / horizon, close exactly once also on error paths, batch atomicity, linearizability (porcupine), options unchanged before / during / after the call.",
          "Interleaving granularity is synchronisation operations; data-race freedom is validated, not decided, by a free-running -race companion. The explored program is the instrumented copy (map capacity hints dropped, map order ascending). RWMutex, WaitGroup and channel semantics are a transcription of Go's.", "3/C07"),
